@@ -46,7 +46,17 @@
 #define VA_MATCH_FIND (vg_old_k != (spif_obj_t) NULL && vg_cr == SPIF_CMP_EQUAL)
 
 /* dup loops (annotation): the copy of the ghost element carries the original's key */
-#define VA_IS_COPY_OF_K (vg_dup_obj->key == ((velem_t) vg_old_k)->key)
+/* NOTE: ghost snapshot pointers (vg_old_k ...) are tied by == in requires; cbmc's value-set
+ * dereferencing does not know what they point to, so they may be COMPARED but never dereferenced:
+ * the element is always read through the slot that is_fresh assigned (self->items[vg_k]). */
+#define VA_IS_COPY_OF_K (vg_dup_obj->key == ((velem_t) self->items[vg_k])->key)
+
+/* container comparison: three-way result for the ghost slot pair (vg_old_k = self->items[vg_k],
+ * vg_old_k2 = other->items[vg_k], vg_cr = element comparison of that pair): a NULL placeholder is
+ * smaller than any element, two placeholders are equal */
+#define VA_SLOTCMP_K ((vg_old_k == (spif_obj_t) NULL && vg_old_k2 == (spif_obj_t) NULL) ? SPIF_CMP_EQUAL : \
+                      ((vg_old_k == (spif_obj_t) NULL) ? SPIF_CMP_LESS : \
+                       ((vg_old_k2 == (spif_obj_t) NULL) ? SPIF_CMP_GREATER : vg_cr)))
 
 /* frame of a mutator */
 #define ARRAY_FRAME(a) (a)->len, (a)->items; (a)->items != NULL: __CPROVER_object_whole((a)->items)
